@@ -5,13 +5,17 @@ type RAT[K comparable, V any] struct {
 	length int
 	values map[K][]V
 	idx    map[K]int
+	// wrapped tells whether the ring of a key has been filled at least once, that
+	// is whether the slots after idx hold written values
+	wrapped map[K]bool
 }
 
 func NewRAT[K comparable, V any](length int) *RAT[K, V] {
 	return &RAT[K, V]{
-		length: length,
-		values: make(map[K][]V),
-		idx:    make(map[K]int),
+		length:  length,
+		values:  make(map[K][]V),
+		idx:     make(map[K]int),
+		wrapped: make(map[K]bool),
 	}
 }
 
@@ -34,14 +38,17 @@ func (r *RAT[K, V]) Find(k K, predicate func(V) bool) (V, bool) {
 	}
 
 	for i := idx; i >= 0; i-- {
-		v := r.values[k][idx]
+		v := r.values[k][i]
 		if predicate(v) {
 			return v, true
 		}
 	}
 
+	if !r.wrapped[k] {
+		return zero, false
+	}
 	for i := r.length - 1; i > idx; i-- {
-		v := r.values[k][idx]
+		v := r.values[k][i]
 		if predicate(v) {
 			return v, true
 		}
@@ -57,6 +64,9 @@ func (r *RAT[K, V]) Write(k K, value V) {
 		r.values[k] = make([]V, r.length)
 	} else {
 		idx = (idx + 1) % r.length
+		if idx == 0 {
+			r.wrapped[k] = true
+		}
 	}
 
 	r.idx[k] = idx
@@ -82,7 +92,7 @@ func (r *RAT[K, V]) FindValues(predicate func(V) bool) map[K]V {
 				break
 			}
 		}
-		if found {
+		if found || !r.wrapped[k] {
 			continue
 		}
 		for i := r.length - 1; i > v; i-- {
